@@ -178,6 +178,11 @@ type rig struct {
 	endp    *smtpendp.Endpoint
 	addr    string
 
+	bufRemoved   atomic.Int64 // spool files unlinked under the endpoint by the buffer fault hook
+	bufDirsGone  atomic.Int64 // times the hook removed the whole buffer directory
+	bufHookFired atomic.Int64
+	bufHookHits  atomic.Int64
+
 	dl1   *sessionDeadlock // first snapshot showing the session deadlocked (taken while a reply was overdue)
 	stuck *sessionDeadlock // confirmed by a second snapshot after the client had closed its socket
 }
@@ -190,6 +195,7 @@ func buildRig(sc *scenario, id string) (*rig, error) {
 		t := mx.NewTarget(fmt.Sprintf("c03t%d_%s", i, id), rg.lg)
 		t.Partial = sc.Partial[i]
 		t.Script = func(p mx.Point) error {
+			rg.bufHit(name, p.Stage)
 			if f := rg.fs.at(name, p.Stage); f != nil {
 				return mx.MakeErr(f.Class, f.Variant, name+" "+p.Stage)
 			}
@@ -206,6 +212,7 @@ func buildRig(sc *scenario, id string) (*rig, error) {
 		return nil
 	}
 	rg.chk.Result = func(cp mx.CheckPoint) module.CheckResult {
+		rg.bufHit("chk", cp.Stage)
 		if f := rg.fs.at("chk", cp.Stage); f != nil {
 			err := mx.MakeErr(f.Class, f.Variant, "check "+cp.Stage)
 			if f.Quarantine {
@@ -245,6 +252,7 @@ func buildRig(sc *scenario, id string) (*rig, error) {
 			return out, nil
 		}
 		rg.mod.Body = func(mp mx.ModPoint, h *textproto.Header) error {
+			rg.bufHit("mod", "body")
 			if f := rg.fs.at("mod", "body"); f != nil {
 				return mx.MakeErr(f.Class, f.Variant, "mod body")
 			}
@@ -254,6 +262,9 @@ func buildRig(sc *scenario, id string) (*rig, error) {
 	}
 	if sc.submission() {
 		mx.RegisterInstance(&scriptAuth{name: "c03auth_" + id})
+	}
+	if err := rg.prepareBufFault(); err != nil {
+		return nil, err
 	}
 	sc.Config = sc.configText(id)
 	var lastErr error
@@ -436,6 +447,9 @@ func runCase(t *testing.T, r *rep.Reporter, c *rep.Case, i int) {
 
 func runScenario(t *testing.T, r *rep.Reporter, c *rep.Case, i int, sc *scenario) {
 	serverLog.reset()
+	// failures of the message buffer (spool file / directory): their own stream, drawn last (buffault_test.go)
+	genBufFault(prng.New(r.Seed(), uint64(i), "c03-buffault"), sc, i)
+	defer cleanBufFault(sc)
 	rg, err := buildRig(sc, strconv.Itoa(i))
 	if err != nil {
 		if strings.Contains(err.Error(), "address already in use") {
@@ -609,6 +623,7 @@ func runScenario(t *testing.T, r *rep.Reporter, c *rep.Case, i int, sc *scenario
 	r.Count("sessions_"+sc.kindTag(), 1)
 	r.Count("session_end_"+sc.End, 1)
 	countEnv(r, sc, rg, eng)
+	countBufFault(r, sc, rg, eng)
 	if i < 3 || (len(sc.Alias) > 0 && i < 12) || (sc.Hostile != nil && i-hostileBase < 2) || (sc.Repeat != nil && i-repeatBase < 2) {
 		r.Sample(map[string]any{"kind": sc.kindTag(), "config": sc.Config, "faults": sc.Faults, "transcript": cl.transcript, "target_log": rg.lg.Strings(40)})
 	}
